@@ -397,6 +397,8 @@ class Session(object):
         a = brack([hx(p) for p in ps])
         for depth in self.r.sample(["-", "0", "1", "2", "3"], 2):
             self.q("mostlinked %d %s %s %s" % (w, a, self.r.choice(["1", "2", "3", "10"]), depth))
+        for depth in ["1", "2", "3", "4"]:      # every depth limit with room for every page: the limit alone decides
+            self.q("mostlinked %d %s 100 %s" % (w, a, depth))
 
     def r_hierarchy(self):
         w, ps = self.pick_we()
